@@ -596,3 +596,60 @@ Proof.
   intros a b H. rewrite !counts_c_flat. rewrite <- (counts_l_fuse (flatten0 a)), <- (counts_l_fuse (flatten0 b)).
   unfold sim in H. rewrite H. reflexivity.
 Qed.
+
+(* Stim's flattened() never leaves a SHIFT_COORDS instruction behind (the shift is folded into later coordinates),
+   whatever the nesting of REPEAT blocks and wherever the shifts occur *)
+Definition no_shift_l (l : list instr) : bool := forallb (fun i => negb (is_shift i)) l.
+Lemma no_shift_l_app : forall a b, no_shift_l (a ++ b) = no_shift_l a && no_shift_l b.
+Proof. intros a b. unfold no_shift_l. apply forallb_app. Qed.
+Lemma apply_shift_name : forall s i, iname (apply_shift s i) = iname i.
+Proof. intros s i. unfold apply_shift. destruct (mem (iname i) coord_names); reflexivity. Qed.
+Lemma iter_sh_no_shift : forall f, (forall s, no_shift_l (fst (f s)) = true) ->
+  forall n s, no_shift_l (fst (iter_sh n f s)) = true.
+Proof.
+  intros f Hf n. induction n as [|k IH]; intro s; cbn [iter_sh]; [reflexivity|].
+  pose proof (Hf s) as H1. destruct (f s) as [o1 s1]. pose proof (IH s1) as H2. destruct (iter_sh k f s1) as [o2 s2].
+  cbn [fst] in *. rewrite no_shift_l_app, H1, H2. reflexivity.
+Qed.
+Fixpoint item_size (x : item) : nat :=
+  match x with
+  | It _ => 1
+  | Rep _ b => S (fold_right (fun y a => item_size y + a) 0 b)
+  end.
+Lemma flat_sh_item_no_shift : forall k x, item_size x <= k -> forall s, no_shift_l (fst (flat_sh_item x s)) = true.
+Proof.
+  induction k as [|k IH]; intros x Hk s.
+  - destruct x; cbn [item_size] in Hk; lia.
+  - destruct x as [i|n b].
+    + cbn [flat_sh_item]. destruct (is_shift i) eqn:E; cbn [fst]; [reflexivity|].
+      unfold no_shift_l. cbn [forallb]. unfold is_shift in *. rewrite apply_shift_name, E. reflexivity.
+    + cbn [flat_sh_item]. apply iter_sh_no_shift. clear s. cbn [item_size] in Hk. apply le_S_n in Hk.
+      induction b as [|y r IHr]; intro s; [reflexivity|].
+      cbn [fold_right] in Hk.
+      assert (Hy : item_size y <= k) by lia.
+      assert (Hr : fold_right (fun y a => item_size y + a) 0 r <= k) by lia.
+      pose proof (IH y Hy s) as H1. destruct (flat_sh_item y s) as [o1 s1].
+      pose proof (IHr Hr s1) as H2.
+      match goal with |- context [let '(o2, s2) := ?g r s1 in _] => destruct (g r s1) as [o2 s2] end.
+      cbn [fst] in *. rewrite no_shift_l_app, H1, H2. reflexivity.
+Qed.
+Lemma flat_sh_no_shift : forall c s, no_shift_l (fst (flat_sh c s)) = true.
+Proof.
+  induction c as [|y r IH]; intro s; [reflexivity|]. cbn [flat_sh].
+  pose proof (flat_sh_item_no_shift (item_size y) y (le_n _) s) as H1. destruct (flat_sh_item y s) as [o1 s1].
+  pose proof (IH s1) as H2. destruct (flat_sh r s1) as [o2 s2]. cbn [fst] in *. rewrite no_shift_l_app, H1, H2. reflexivity.
+Qed.
+Lemma cons_fuse_no_shift : forall i X, no_shift_l (i :: X) = true -> no_shift_l (cons_fuse i X) = true.
+Proof.
+  intros i [|j r] H; [exact H|]. cbn [cons_fuse]. destruct (can_fuse i j) eqn:E; [|exact H].
+  unfold no_shift_l in *. cbn [forallb] in *. apply andb_true_iff in H as [Hi H]. apply andb_true_iff in H as [_ Hr].
+  unfold is_shift in *. cbn [merge iname]. rewrite Hi, Hr. reflexivity.
+Qed.
+Lemma fuse_no_shift : forall l, no_shift_l l = true -> no_shift_l (fuse l) = true.
+Proof.
+  induction l as [|i l IH]; intro H; [reflexivity|]. rewrite fuse_cons. apply cons_fuse_no_shift.
+  unfold no_shift_l in *. cbn [forallb] in *. apply andb_true_iff in H as [Hi Hl]. fold (no_shift_l (fuse l)).
+  rewrite Hi. cbn [andb]. apply IH. exact Hl.
+Qed.
+Theorem flattened_no_shift : forall c, no_shift_l (flattened_l c) = true.
+Proof. intro c. unfold flattened_l. apply fuse_no_shift. apply flat_sh_no_shift. Qed.
